@@ -23,7 +23,7 @@ pub static PROP: PropDef = PropDef {
            exhaustive: all histories of <= 3 requests x 8 endings x immediate/late x GOAWAY position. non-trivial = >= 1 request ended in a non-normal way and the GOAWAY arrived while >= 1 request was alive; distinct by (history, schedule)",
     assumptions: &["quiescence of the closed system decides 'forever' (DESIGN.md 2.5)", "the application stops calling accept() after Ok(None)"],
     tape_len: 200,
-    random_cases: |t| t.pick(40_000, 1_500_000),
+    random_cases: |t| t.pick(160_000, 15_000_000),
     run_tape,
     exhaustive: Some(exhaustive),
     run_direct: Some(run_direct),
